@@ -62,6 +62,8 @@ type Exec struct {
 	interestSorts map[int]map[string]bool
 	ninst     int
 	skNest    int
+	absReads  []absRead
+	idxElemSort map[int]map[string]bool
 }
 
 type InputSym struct {
@@ -169,6 +171,7 @@ func (x *Exec) assumeTypeB(st *State, v *Term, t types.Type, bound *Term) {
 	}
 	if _, isPtr := t.Underlying().(*types.Pointer); isPtr && !isAllocTerm(v) {
 		if inv := x.typeInv(st, &Val{T: v, Typ: t}); inv != True {
+			x.trusted["A-INV"] = true
 			x.assumeFact(st, Implies(Neq(v, IntLit(0)), inv))
 		}
 	}
@@ -400,9 +403,7 @@ func (x *Exec) readElem(st *State, elemT types.Type, sl, idx *Term) *Term {
 		x.assumeTypeB(st, v, elemT, node.readBound(slRef(sl), x.job.alloc0))
 	}
 	if !hasFreeBound(idx) {
-		for _, k := range arrKeys(arr) {
-			x.addInterest(st, idx, k)
-		}
+		x.addReadInterest(st, arr, slOff(sl), idx)
 	} else {
 		x.assumeType(st, v, elemT)
 	}
